@@ -316,7 +316,7 @@ func sweepRunes() []rune {
 	for ch := rune(0x21); ch <= 0x7e; ch++ {
 		out = append(out, ch)
 	}
-	out = append(out, 0x85, 0xa0, 0xad)
+	out = append(out, 0x7f, 0x85, 0xa0, 0xad, 0x200b, 0x2028, 0x2029, 0x2060, 0xfeff, 0xfffd, 0xfffe, 0xe000, 0x10ffff) // (controls of C1, invisible and special-purpose characters)
 	for _, base := range []rune{0x0100, 0x0400, 0x2000, 0x2100, 0x3000, 0x4e00, 0xff00, 0x10000, 0x1f600} {
 		for _, low := range []rune{0x09, 0x0a, 0x0d, 0x20, 0x22, 0x27, 0x2a, 0x2b, 0x2f, 0x3b, 0x5c, 0x7b, 0x7d} {
 			out = append(out, base+low)
